@@ -7,3 +7,6 @@ clang++-14 -std=c++11 -O1 -fno-access-control -DNDEBUG -DSYMIR -w -I"$H/harness"
 python3-vt "$H/engine/symir.py" "$D/mt.ll" h_map_selftest --json "$D/o.json" >/dev/null || { echo "selftest: symir map model FAILED"; cat "$D/o.json" | head -40; exit 1; }
 g++ -std=c++11 -O1 -DVP_NATIVE -DVP_ENTRY=h_map_selftest -w -I"$H/harness" "$H/engine/selftest/map_test.cpp" "$H/engine/replay_rt.cpp" -o "$D/mt" && "$D/mt" >/dev/null || { echo "selftest: native map reference FAILED"; exit 1; }
 echo "selftest ok (std::map model vs native)"
+clang++-14 -std=c++11 -O1 -fno-access-control -DNDEBUG -DSYMIR -w -I"$H/harness" -S -emit-llvm -o "$D/va.ll" "$H/engine/selftest/va_test.cpp"
+python3-vt "$H/engine/symir.py" "$D/va.ll" h_va --json "$D/va.json" >/dev/null || { echo "selftest: symir variadic-argument model FAILED"; head -40 "$D/va.json"; exit 1; }
+echo "selftest ok (va_start/va_arg layout)"
